@@ -23,7 +23,7 @@ def rollout(case):
   name, backend, B, T, seed = case['env'], case['backend'], case['batch'], case['steps'], case['seed']
   evs = []
   try:
-    env = envs.get_environment(name, backend=backend)
+    env = envs.get_environment(name, backend=backend, **case.get('kwargs', {}))
     evs.append({'ev': 'make', 'env': name, 'backend': backend, 'result': 'ok'})
   except Exception as e:  # pylint: disable=broad-except
     evs.append({'ev': 'make', 'env': name, 'backend': backend, 'result': 'raise'})
@@ -115,6 +115,14 @@ def rollout(case):
   return {'events': evs, 'err': detail}
 
 
+def option_pair(case):
+  """Two instances of one environment class in ONE process - one with a non-default observation option, one default, in the
+  given order - each driven through a short contract rollout."""
+  first, second = (case['kwargs'], {}) if case['option_first'] else ({}, case['kwargs'])
+  base = {k: case[k] for k in ('env', 'backend', 'batch', 'steps', 'seed')}
+  return [rollout({**base, 'kwargs': first}), rollout({**base, 'kwargs': second})]
+
+
 KEYS = ['ev', 'env', 'backend', 'result', 'key', 'done', 'obs_ok', 'finite', 'unit', 'digest', 't', 'act_ok', 'prefix', 'pure']
 
 
@@ -133,6 +141,16 @@ def run(ctx):
   for case, r in par.run('harness.drivers.c16', 'rollout', cases, x64=False, procs=11):
     traces.append([{k: e.get(k, -1) for k in KEYS} for e in r['events']])
     errs.append(r.get('err'))
+  # observation options: the declared size must follow the option, for every instance (two instances per process)
+  optcases = [{'env': e, 'backend': 'positional' if e != 'swimmer' else 'generalized', 'batch': 8, 'steps': 3, 'seed': ctx.seed,
+               'kwargs': {'exclude_current_positions_from_observation': False}, 'option_first': i % 2 == 0}
+              for i, e in enumerate(['ant', 'halfcheetah', 'hopper', 'walker2d', 'humanoid', 'swimmer'])]
+  for case, rs in par.run('harness.drivers.c16', 'option_pair', optcases, x64=False, procs=6):
+    for k, r in enumerate(rs):
+      first_has_option = case['option_first'] == (k == 0)
+      cases.append({**case, 'kwargs': case['kwargs'] if first_has_option else {}, 'label': f'instance {k + 1} of 2'})
+      traces.append([{kk: e.get(kk, -1) for kk in KEYS} for e in r['events']])
+      errs.append(r.get('err'))
   if not q:
     # double precision legs of the maximal-coordinate backends (small batches, full episode): degenerate schedules included
     cases64 = [{'env': e, 'backend': b, 'batch': 8, 'steps': 1000, 'seed': ctx.seed + 1, 'x64': True}
@@ -153,12 +171,12 @@ def run(ctx):
   for i, (case, evs) in enumerate(zip(cases, traces)):
     ctx.traces += 1
     ran = len(evs) > 10
-    ctx.case(key=(case['env'], case['backend'], bool(case.get('x64'))), nontrivial=ran,
+    ctx.case(key=(case['env'], case['backend'], bool(case.get('x64')), str(case.get('kwargs')), case.get('label')), nontrivial=ran,
              sample={'env': case['env'], 'backend': case['backend'], 'events': evs[:3]} if i == 0 else None)
     if (i + 1) in rejected:
       at = rejected[i + 1]
       bad = evs[at - 1] if 0 < at <= len(evs) else None
-      ctx.violation(f'{case["env"]}/{case["backend"]}: rollout rejected by EnvContract at event {at}: {bad}; {errs[i]}',
+      ctx.violation(f'{case["env"]}/{case["backend"]}{" " + str(case["kwargs"]) + " " + case.get("label", "") if case.get("kwargs") is not None and "label" in case else ""}: rollout rejected by EnvContract at event {at}: {bad}; {errs[i]}',
                     {'env': case['env'], 'backend': case['backend'], 'rejected_at': at, 'event': bad, 'error': errs[i],
                      'batch': case['batch'], 'steps': case['steps'], 'seed': case['seed']},
                     {'call': f'{case["env"]}/{case["backend"]}', 'predicate': bad['ev'] if bad else 'trace'})
